@@ -46,6 +46,8 @@ type Model struct {
 	strMemo map[strKey][]string
 	Stats   map[string]int
 	LoadSeconds float64
+	calleeCache map[*ssa.Function][]callEdge
+	lm          *lockModel
 }
 
 // Load type-checks and builds the model. Any type error fails the load.
@@ -93,6 +95,7 @@ func Load(repoDir string, useCHA bool) (*Model, error) {
 		rd:      map[*ssa.Function]*reachDefs{},
 		strMemo: map[strKey][]string{},
 		Stats:   map[string]int{},
+		calleeCache: map[*ssa.Function][]callEdge{},
 	}
 	if m.SSA == nil {
 		return nil, fmt.Errorf("no SSA package for root")
@@ -139,6 +142,9 @@ func countPkgs(pkgs []*packages.Package) int {
 // inPkg reports whether fn belongs to the analysed package (declared functions, methods,
 // closures nested in them, and instantiations of its generic functions).
 func (m *Model) inPkg(fn *ssa.Function) bool {
+	if fn.Synthetic != "" && fn.Pkg == nil && fn.Object() != nil && fn.Object().Pkg() == m.SSA.Pkg {
+		return true // bound-method closures and thunks of this package's methods
+	}
 	for f := fn; f != nil; f = f.Parent() {
 		if f.Pkg == m.SSA {
 			return true
